@@ -220,7 +220,7 @@ CLAIMS.update({
 
 CLAIMS.update({
     "C18": dict(
-        technique="Lean 4 refinement proof over all histories of add_rule / delete_rule (rule list of every language = original ++ survivors = what a fresh calculator gets from the survivors alone), return-value and no-op theorems for all four mutators, decline / effect theorems on the rewrite pass + histories replayed on implementation, model and a fresh implementation",
+        technique="Lean 4 refinement proof over all histories of add_rule / delete_rule (rule list of every language = original ++ survivors = what a fresh calculator gets from the survivors alone), return-value and no-op theorems for all four mutators, decline / effect theorems on the rewrite pass, registration from the pattern texts through the lexer model + histories replayed from their texts on implementation, model and a fresh implementation",
         text="Proof (every number type): add_rule fails iff the language is unknown, delete_rule iff the language or an API rule of that name is missing, and "
              "a failing call changes nothing (addRule_false_iff/_noop, deleteRule_false_iff/_noop); after ANY history the rule list of every language is "
              "the original one transformed by exactly the calls addressed to it and nothing else of the configuration changes (run_rules, run_frame, via "
@@ -231,9 +231,11 @@ CLAIMS.update({
              "const_returns); duplicate family names / item indices / unknown families are rejected without change (addDynamicType*_false_iff/_noop); "
              "user families convert by the chain theorem of C12 (user_family_converts). Implementation: histories of 5-60 calls with checkpoints compared "
              "against the specification's return values, against a FRESH calculator replaying only the survivors, against exact chain factors, and "
-             "replayed op by op on the Lean model (patterns tokenised by the implementation itself). Two panics repaired earlier in /repo (index 0, "
+             "replayed op by op on the Lean model FROM THE TEXTS: the model tokenises the patterns itself - rules in their own language, unit items in en "
+             "(SC.Api; addRuleText_known_language / _unknown_language / _false_noop / _other_languages, addDynamicTypeItemText_*) - and lexes every line. "
+             "Two panics repaired earlier in /repo (index 0, "
              "pattern without value field).",
-        note="Trusted: Lean kernel + 3 axioms; rule behaviours limited to five canned RuleTrait implementations shared by harness and model; pattern lexing is the implementation's own.",
+        note="Trusted: Lean kernel + 3 axioms; rule behaviours limited to six canned RuleTrait implementations shared by harness and model; pattern and line lexing is the model's (regexes regenerated from config.json).",
         ref="§7 C18"),
 })
 
